@@ -5,6 +5,7 @@ import (
 	"crypto/sha256"
 	"fmt"
 	"math/big"
+	"sort"
 	"sync"
 	"time"
 
@@ -19,6 +20,7 @@ import (
 	"github.com/LemoFoundationLtd/lemochain-core/common"
 	"github.com/LemoFoundationLtd/lemochain-core/common/crypto"
 	"github.com/LemoFoundationLtd/lemochain-core/common/flag"
+	"github.com/LemoFoundationLtd/lemochain-core/common/subscribe"
 	"github.com/LemoFoundationLtd/lemochain-core/store"
 )
 
@@ -127,10 +129,16 @@ func NewNet(c *Ctx, p ChainParams) *Net {
 
 // Shutdown closes every store of the net so that their goroutines exit before the bubble ends.
 func (n *Net) Shutdown() {
-	for _, nd := range n.Nodes {
-		nd := nd
+	tags := make([]int, 0, len(n.Nodes))
+	for t := range n.Nodes {
+		tags = append(tags, t)
+	}
+	sort.Ints(tags)
+	for _, t := range tags {
+		nd := n.Nodes[t]
 		if nd.Alive {
 			n.C.W.Do(nd.Tag, nd.Name+".shutdown", func() {
+				defer func() { recover() }() // the scenario may have closed it already
 				if nd.BC != nil {
 					nd.BC.Stop()
 				}
@@ -144,6 +152,7 @@ func (n *Net) Shutdown() {
 	for _, f := range n.factories {
 		f := f
 		n.C.W.Do(f.Tag, "factory.shutdown", func() {
+			defer func() { recover() }() // the scenario may have closed it already
 			if f.DB != nil {
 				f.DB.Close()
 			}
@@ -206,6 +215,9 @@ func (n *Net) AddNode(tag int, name string, self *keyInfo) *Node {
 // Start builds the node the way main/node.New does, on whatever its disk holds.
 // It must run in a task tagged with the node (use StartNode from the world).
 func (nd *Node) start() {
+	// a fresh process has an empty event bus: drop the subscriptions of a dead incarnation
+	// (this also creates the node-local bus in the start task, ahead of all its goroutines)
+	subscribe.ClearSub()
 	deputynode.SetSelfNodeKey(nd.Self.Key)
 	nd.DB = store.NewChainDataBase(nd.Home)
 	if _, err := nd.DB.GetBlockByHeight(0); err != nil {
